@@ -170,11 +170,13 @@ static bool gen_c17_inject(Rng &r, Plan &p) {
       list += item; if (q + 1 < n) list += r.chance(0.9) ? "," + cmt() : ",\n\t";
     }
     if (r.chance(0.1)) list += ",";
-    hdr += name + ":" + (r.chance(0.8) ? " " : "") + list + "\n";
+    // (white space between a field name and its colon is tolerated by the header recogniser: the field still counts)
+    hdr += name + (r.chance(0.8) ? "" : r.pick(std::vector<std::string>{" ", "\t", " \t", "\t "})) + ":" + (r.chance(0.8) ? " " : "") + list + "\n";
   }
   if (r.chance(0.5)) hdr = "From: Sender Person <sender@x.example>\n" + hdr;
-  if (r.chance(0.3)) hdr += "Subject: s\n";
-  hdr += "\nbody line\n";
+  if (r.chance(0.12)) hdr.pop_back();              // a message that is only a header and whose last line (a recipient field) lacks its newline
+  else if (r.chance(0.1)) {}                        // header only, properly ended
+  else { if (r.chance(0.3)) hdr += "Subject: s\n"; hdr += r.chance(0.9) ? "\nbody line\n" : "\nbody without newline"; }
   p.knobs.set("stdin", hdr);
   // recipients and sender given as arguments are quoted into a header field by qmail-inject and parsed back: hostile local parts
   auto hostile_box = [&]() -> std::string { std::string b; do { b = c17_local(r, r.next(), false); } while (b.empty()); return b; };
